@@ -36,11 +36,12 @@ case "$MODE" in
     ;;
   *) echo "unknown mode $MODE" >&2; exit 2;;
 esac
-if [ $rc -eq 77 ] || [ $rc -eq 78 ]; then
-  # the allocator guard (77) or the SIGABRT handler (78) stopped the process on the current case
+if [ $rc -eq 77 ] || [ $rc -eq 78 ] || [ $rc -eq 79 ]; then
+  # the allocator guard (77), the SIGABRT handler (78) or the SIGSEGV/SIGBUS handler (79) stopped the
+  # process on the current case
   dst="/verif/replays/${ID}_emergency_$$.json"
   mv /verif/replays/emergency.json "$dst" 2>/dev/null
-  echo "process stopped by the allocation/abort guard (code $rc)"
+  echo "process stopped by the allocation / abort / memory-fault guard (code $rc)"
   echo "VIOLATION property=$ID replay=$dst"
   exit 1
 fi
